@@ -2,6 +2,7 @@ package props
 
 import (
 	"bufio"
+	"crypto/tls"
 	"encoding/json"
 	"fmt"
 	"net"
@@ -37,6 +38,8 @@ type c14Plan struct {
 	Lifecycle []string    `json:"lifecycle"` // restart | stopstart | sleep
 	Enumerate int         `json:"enumerate"` // iterations of the registry enumerator
 	TLS       bool        `json:"tls"`
+	Modes     []string    `json:"modes,omitempty"`    // per client: tcp (default) | tls (TLS port, client certificate) | pipe (in-memory connection through the real connection loop)
+	Password  string      `json:"password,omitempty"` // requirepass configured before Start
 }
 
 type c14Batch struct {
@@ -51,23 +54,54 @@ func runC14Plan(p c14Plan) error {
 	if p.TLS {
 		srv.ServerCert, srv.ServerKey, srv.CACerts = pk.Server.CertPEM, pk.Server.KeyPEM, pk.Root.CertPEM
 	}
-	port, _, err := startOnFreePorts(srv, p.TLS)
+	if p.Password != "" {
+		srv.SetRequirePass(p.Password)
+	}
+	port, tlsPort, err := startOnFreePorts(srv, p.TLS)
 	if err != nil {
 		return err
 	}
 	addr := fmt.Sprintf("127.0.0.1:%d", port)
+	tlsAddr := fmt.Sprintf("127.0.0.1:%d", tlsPort)
+	var tlsCfg *tls.Config
+	if p.TLS {
+		tlsCfg = pk.ClientConfig(pk.Client("verif-client", pk.Root, false))
+	}
 	var wg sync.WaitGroup
+	var served sync.WaitGroup
 	stopAll := make(chan struct{})
-	for _, script := range p.Clients {
+	for ci, script := range p.Clients {
+		mode := "tcp"
+		if ci < len(p.Modes) && p.Modes[ci] != "" {
+			mode = p.Modes[ci]
+		}
+		if mode == "tls" && !p.TLS {
+			mode = "tcp"
+		}
 		wg.Add(1)
-		go func(script []c14Step) {
+		go func(script []c14Step, mode string) {
 			defer wg.Done()
 			var conn net.Conn
 			dial := func() {
 				if conn != nil {
 					conn.Close()
 				}
-				conn, _ = net.DialTimeout("tcp", addr, time.Second)
+				switch mode {
+				case "tls":
+					c, err := tls.DialWithDialer(&net.Dialer{Timeout: time.Second}, "tcp", tlsAddr, tlsCfg)
+					if err != nil {
+						conn = nil
+						return
+					}
+					conn = c
+				case "pipe":
+					a, b := net.Pipe()
+					served.Add(1)
+					go func() { defer served.Done(); srv.VerifServeConn(b); b.Close() }()
+					conn = a
+				default:
+					conn, _ = net.DialTimeout("tcp", addr, time.Second)
+				}
 			}
 			dial()
 			for _, st := range script {
@@ -93,7 +127,7 @@ func runC14Plan(p c14Plan) error {
 			if conn != nil {
 				conn.Close()
 			}
-		}(script)
+		}(script, mode)
 	}
 	wg.Add(1)
 	go func() { // registry enumeration
@@ -124,6 +158,9 @@ func runC14Plan(p c14Plan) error {
 				srv.Stop()
 				runtime.Gosched()
 				srv.Start()
+			case "setpass-restart":
+				srv.SetRequirePass("pw2")
+				srv.Restart()
 			default:
 				time.Sleep(300 * time.Microsecond)
 			}
@@ -131,7 +168,9 @@ func runC14Plan(p c14Plan) error {
 	}()
 	wg.Wait()
 	close(stopAll)
-	return srv.Stop()
+	err = srv.Stop()
+	served.Wait()
+	return err
 }
 
 // childC14 is the worker mode of the race-instrumented binary.
@@ -299,10 +338,11 @@ func init() { register("c14.batch", evalC14Batch) }
 var c14Cmds = [][]string{{"GET", "k"}, {"SET", "k", "v"}, {"INCR", "n"}, {"APPEND", "k", "x"}, {"MSET", "a", "1", "b", "2"}, {"MGET", "a", "b"}, {"HSET", "h", "f", "v"}, {"HGETALL", "h"}, {"HKEYS", "h"},
 	{"LPUSH", "l", "a"}, {"LPOP", "l"}, {"LRANGE", "l", "0", "-1"}, {"SADD", "s", "m"}, {"SMEMBERS", "s"}, {"SCARD", "s"}, {"ZADD", "z", "1", "m"}, {"ZRANGE", "z", "0", "-1"}, {"ZCARD", "z"},
 	{"DEL", "k"}, {"EXISTS", "k"}, {"KEYS", "*"}, {"SCAN", "0"}, {"TYPE", "k"}, {"EXPIRE", "k", "10"}, {"TTL", "k"}, {"PING"}, {"ECHO", "x"}, {"SELECT", "1"}, {"AUTH", "p"}, {"NOSUCH"},
+	{"AUTH", "pw"}, {"AUTH", "pw2"}, {"CONFIG", "SET", "requirepass", "pw"}, {"CONFIG", "SET", "requirepass", ""}, {"CONFIG", "GET", "requirepass"},
 	{"CONFIG", "SET", "verif-a", "1"}, {"CONFIG", "SET", "verif-b", "2"}, {"CONFIG", "GET", "verif-a"}, {"CONFIG", "GET", "verif-a", "verif-b"}, {"CONFIG", "SET", "verif-a", "x", "verif-b", "y"}}
 
 func genC14Plan(rt *rapid.T) c14Plan {
-	p := c14Plan{Enumerate: rapid.IntRange(0, 400).Draw(rt, "enum"), TLS: rapid.IntRange(0, 3).Draw(rt, "tls") == 0}
+	p := c14Plan{Enumerate: rapid.IntRange(0, 400).Draw(rt, "enum"), TLS: rapid.IntRange(0, 2).Draw(rt, "tls") == 0}
 	nc := rapid.SampledFrom([]int{2, 3, 4, 8, 16, 32}).Draw(rt, "clients")
 	for i := 0; i < nc; i++ {
 		var script []c14Step
@@ -315,15 +355,19 @@ func genC14Plan(rt *rapid.T) c14Plan {
 			case 2:
 				script = append(script, c14Step{SleepUS: rapid.IntRange(1, 200).Draw(rt, "us")})
 			case 3, 4, 5:
-				script = append(script, c14Step{Cmd: c14Cmds[rapid.IntRange(len(c14Cmds)-5, len(c14Cmds)-1).Draw(rt, "cfg")]})
+				script = append(script, c14Step{Cmd: c14Cmds[rapid.IntRange(len(c14Cmds)-10, len(c14Cmds)-1).Draw(rt, "cfg")]})
 			default:
 				script = append(script, c14Step{Cmd: c14Cmds[rapid.IntRange(0, len(c14Cmds)-1).Draw(rt, "cmd")]})
 			}
 		}
 		p.Clients = append(p.Clients, script)
+		p.Modes = append(p.Modes, rapid.SampledFrom([]string{"tcp", "tcp", "tcp", "tls", "tls", "pipe"}).Draw(rt, "mode"))
+	}
+	if rapid.IntRange(0, 2).Draw(rt, "pass") == 0 {
+		p.Password = "pw"
 	}
 	for j, n := 0, rapid.IntRange(0, 6).Draw(rt, "nlife"); j < n; j++ {
-		p.Lifecycle = append(p.Lifecycle, rapid.SampledFrom([]string{"restart", "stopstart", "sleep", "sleep"}).Draw(rt, "life"))
+		p.Lifecycle = append(p.Lifecycle, rapid.SampledFrom([]string{"restart", "stopstart", "setpass-restart", "sleep", "sleep"}).Draw(rt, "life"))
 	}
 	return p
 }
@@ -348,8 +392,8 @@ func c14Nontrivial(p c14Plan) bool {
 }
 
 func TestC14(t *testing.T) {
-	h := newHarness(t, "C14", "concurrent workload plans drawn from rapid: 2..32 TCP clients against a started server with a race-free recording handler, each client a script over every command family with connect/disconnect churn, "+
-		"CONFIG SET/GET on shared parameters, yields and microsecond delays; one goroutine enumerating Conns()/ConnByUUID, one issuing Stop/Start/Restart; plain or plain+TLS listeners. The plans run in a child process built with -race "+
+	h := newHarness(t, "C14", "concurrent workload plans drawn from rapid: 2..32 clients (plain TCP port, TLS port with a client certificate, or in-memory connections through the real connection loop, mixed) against a started server with a race-free recording handler, with or without requirepass, each client a script over every command family with connect/disconnect churn, "+
+		"AUTH, CONFIG SET/GET on shared parameters including requirepass, yields and microsecond delays; one goroutine enumerating Conns()/ConnByUUID, one issuing Stop/Start/Restart and SetRequirePass+Restart; plain or plain+TLS listeners. The plans run in a child process built with -race "+
 		"(GORACE halt_on_error=0, log_path); oracle: the race detector - a report counts iff the innermost non-runtime frame of at least one of the two accesses is in github.com/cybergarage/go-redis/redis/..., reduced to an unordered pair of (function, read|write); "+
 		"a 'concurrent map' abort of the child is a violation too. Non-trivial: >=2 clients overlapping and at least one of {CONFIG SET, churn, lifecycle call}. Distinct = distinct plan.")
 	defer h.Finish()
